@@ -117,42 +117,3 @@ Definition identify_defaults_ok : bool :=
   all_defaults "max_num_paths" "25" &&
   list_eqb pair_eqb (functions_with "max_num_paths") [("", "identify_instruments"); ("", "identify_mediators")] &&
   has_default "" "identify_colliders" "unshielded_only" "False".
-
-(** C12: the two functions that Names.v models (parse = get_variable_name_and_lag, fmt = get_name_with_lag), statement
-    by statement as they stand in utils.py (docstrings and the messages of raise / assert stripped).  Appendix B of
-    DESIGN.md describes how Names.parse follows these three regular expressions. *)
-Definition modelled_name_codec_source : list string :=
-[
-  "def get_variable_name_and_lag(node_name: NodeLike):";
-  "    if isinstance(node_name, HasIdentifier):";
-  "        node_name = node_name.identifier";
-  "    if not isinstance(node_name, str):";
-  "        raise TypeError";
-  "    is_match = re.match('^(?s:(.+?\\n*))(?: lag\\(n=(\\d+)\\))?(?: future\\(n=(\\d+)\\))?$', node_name)";
-  "    lag_matches = re.findall('lag\\(n=(\\d+)\\)', node_name)";
-  "    future_matches = re.findall('future\\(n=(\\d+)\\)', node_name)";
-  "    num_matches = (len(lag_matches) if lag_matches is not None else 0) + (len(future_matches) if future_matches is not None else 0)";
-  "    if is_match:";
-  "        if num_matches > 1:";
-  "            raise ValueError";
-  "        variable_name = is_match.group(1)";
-  "        past_lag = is_match.group(2)";
-  "        future_lag = is_match.group(3)";
-  "        if past_lag:";
-  "            return (variable_name, -int(past_lag))";
-  "        elif future_lag:";
-  "            return (variable_name, int(future_lag))";
-  "        else:";
-  "            return (variable_name, 0)";
-  "    else:";
-  "        raise ValueError";
-  "def get_name_with_lag(variable_or_node_name: str, lag: int):";
-  "    variable_name, old_lag = get_variable_name_and_lag(variable_or_node_name)";
-  "    assert isinstance(lag, int)";
-  "    if lag == 0:";
-  "        return variable_name";
-  "    elif lag > 0:";
-  "        return f'{variable_name} future(n={lag})'";
-  "    else:";
-  "        return f'{variable_name} lag(n={-lag})'"
-].
